@@ -2,20 +2,20 @@
   C08 — `lazy.update_at_(value, index)` (tensordict/_lazy.py): the index write that does not go
   through `__setitem__` (it is also what `_stack_onto_` calls for `torch.stack(..., out=)`).
 -/
-import TdVerif.Model.C08Lazy
+import TdVerif.Model.C08SetMask2
 
 namespace TdVerif.C08
 
 /-- mirrors `update_at_(value, index)` (_lazy.py) for a tensordict value: `_split_index(index)`
 (which expands the Ellipsis itself); a mask or an integer tensor addressed to the stack dim → the
-generic key-by-key path of base.py (`set_at_` → `_set_at_str`, i.e. the writes of `lazySetCore`);
+generic key-by-key path of base.py (`set_at_` → `_set_at_str`, i.e. the writes of `lazySetCoreM`);
 an integer on the stack dim → the one member's `update_at_`; otherwise piece `i` of
 `value.unbind(stack_dim - num_single + num_none - num_squash)`, zipped strictly with the selected
 members, goes to member `i`'s `update_at_` -/
 def lazyUpdateAt (L : Lazy α) (ix : List Ix) (v : TD α) : Option (Lazy α) :=
   (convertEllipsis ix L.batch.length).bind fun ix' =>
   (splitIndex L ix').bind fun st =>
-    if st.hasBool ∨ st.isNd then lazySetCore L ix' v
+    if st.hasBool ∨ st.isNd then lazySetCoreM L ix' v
     else
       let ud : Int := (L.sd : Int) - st.numSingle + st.numNone - st.numSquash
       if st.isInteger then
